@@ -101,6 +101,12 @@ def scenarios(run):
         out.append((cfg, [('Initiate',), ('Drain',), ('UpdateSettings', [(258, 1)]), ACK, ACK]))
         out.append((cfg, [('Initiate',), ACK, ('UpdateSettings', [(4, 1000), (5, 20000), (6, 10)]), ACK,
                           ('UpdateSettings', [(4, 1000)]), ('UpdateSettings', [(4, 65535)]), ACK, ACK, ('RemoteWindow', 1)]))
+        # one identifier in flight several times, a value repeated: each acknowledgement must report its own frame, in order
+        for k, a, b in ((5, 65536, 16384), (4, 1000, 70000), (3, 7, 1), (1, 0, 4096), (6, 100, 200), (2, 0, 1) if client else (8, 1, 0)):
+            out.append((cfg, [('Initiate',), ACK, ('UpdateSettings', [(k, a)]), ('UpdateSettings', [(k, a)]), ('UpdateSettings', [(k, b)]),
+                              ACK, ACK, ACK]))
+            out.append((cfg, [('Initiate',), ACK, ('UpdateSettings', [(k, a)]), ('UpdateSettings', [(k, b)]), ('UpdateSettings', [(k, b)]),
+                              ('UpdateSettings', [(k, a)]), ACK, ACK, ACK, ACK]))
         out.append((cfg, list(t2.zoo(client)) + [('UpdateSettings', [(4, 70000), (3, 1)]), ACK,
                                                   ('Receive', [(('Settings', False, [(4, 10), (5, 16385), (3, 0), (99, 7)]), None, {})])]))
     return out
